@@ -1,6 +1,6 @@
 (* Lemmas about Model/Retry.v (C17). *)
 From Coq Require Import QArith Qabs.
-From Oras Require Import Base.Prelude Generated.GC17 Model.Retry.
+From Oras Require Import Base.Prelude Base.RetryTypes Generated.GC17 Model.Retry.
 Open Scope Z_scope.
 
 (* ------------------------------------------------------------------ *)
@@ -20,12 +20,26 @@ Proof.
   destruct (x <? lo) eqn:E1; [lia|]. destruct (x >? hi) eqn:E2; lia.
 Qed.
 
+(* the generated decision function (translated from the source) in closed form *)
+Lemma generic_retry_eq p attempt o :
+  generic_retry p attempt o =
+  if attempt >=? p_max_retry p then DStop
+  else match p_pred p o with
+       | PFail => DFail
+       | PStop => DStop
+       | PRetry => match p_backoff p attempt o with
+                   | BPanic => DPanic
+                   | BRet x => DWait (clamp (p_min p) (p_max p) x)
+                   end
+       end.
+Proof. reflexivity. Qed.
+
 (* each pause GenericPolicy.Retry computes lies within [MinWait, MaxWait],
    for any predicate, any backoff function, any attempt and any answer *)
 Lemma generic_retry_bounds p attempt o d :
   p_min p <= p_max p -> generic_retry p attempt o = DWait d -> p_min p <= d <= p_max p.
 Proof.
-  intros H. unfold generic_retry.
+  intros H. unfold generic_retry, generated_retry.
   destruct (attempt >=? p_max_retry p); [discriminate|].
   destruct (p_pred p o); try discriminate.
   destruct (p_backoff p attempt o) as [x|]; [|discriminate].
@@ -35,7 +49,7 @@ Qed.
 Lemma generic_retry_wait_lt p attempt o d :
   generic_retry p attempt o = DWait d -> attempt < p_max_retry p /\ p_pred p o = PRetry.
 Proof.
-  unfold generic_retry. destruct (attempt >=? p_max_retry p) eqn:E; [discriminate|].
+  unfold generic_retry, generated_retry. destruct (attempt >=? p_max_retry p) eqn:E; [discriminate|].
   destruct (p_pred p o); try discriminate. intros _. split; [lia|reflexivity].
 Qed.
 
@@ -43,20 +57,20 @@ Lemma generic_retry_nonretryable p attempt o :
   p_pred p o <> PRetry ->
   generic_retry p attempt o = DStop \/ generic_retry p attempt o = DFail.
 Proof.
-  unfold generic_retry. intro H. destruct (attempt >=? p_max_retry p); [now left|].
+  unfold generic_retry, generated_retry. intro H. destruct (attempt >=? p_max_retry p); [now left|].
   destruct (p_pred p o); auto. congruence.
 Qed.
 
 Lemma generic_retry_exhausted p attempt o :
   p_max_retry p <= attempt -> generic_retry p attempt o = DStop.
 Proof.
-  unfold generic_retry. intro H. destruct (attempt >=? p_max_retry p) eqn:E; [reflexivity|lia].
+  unfold generic_retry, generated_retry. intro H. destruct (attempt >=? p_max_retry p) eqn:E; [reflexivity|lia].
 Qed.
 
 Lemma generic_retry_no_panic p attempt o :
   (forall a o', p_backoff p a o' <> BPanic) -> generic_retry p attempt o <> DPanic.
 Proof.
-  intro H. unfold generic_retry. destruct (attempt >=? p_max_retry p); [discriminate|].
+  intro H. unfold generic_retry, generated_retry. destruct (attempt >=? p_max_retry p); [discriminate|].
   destruct (p_pred p o); try discriminate.
   destruct (p_backoff p attempt o) eqn:E; [discriminate|]. now apply H in E.
 Qed.
@@ -143,7 +157,7 @@ Lemma retry_after_honoured guarded oob rnd e maxretry minw maxw pred attempt h c
   generic_retry (mkPolicy maxretry minw maxw pred (exp_backoff_gen guarded oob rnd e)) attempt (OStatus 429 h ch)
   = DWait (clamp minw maxw (n * 1000000000)).
 Proof.
-  intros Hh Hp Hn Hr Ha Hpred. unfold generic_retry. cbn [p_max_retry p_pred p_backoff p_min p_max].
+  intros Hh Hp Hn Hr Ha Hpred. unfold generic_retry, generated_retry. cbn [p_max_retry p_pred p_backoff p_min p_max].
   destruct (attempt >=? maxretry) eqn:E; [lia|]. rewrite Hpred.
   now rewrite (exp_backoff_retry_after guarded oob rnd e attempt h ch n Hh Hp Hn Hr).
 Qed.
@@ -770,7 +784,7 @@ Lemma accept_decision_complete guarded oob rnd e maxretry minw maxw attempt o :
        (generic_retry (mkPolicy maxretry minw maxw default_predicate (exp_backoff_gen guarded oob rnd e))
                       attempt o)) <> VNo.
 Proof.
-  intros Hrnd Hoob. unfold accept_decision, generic_retry. cbn [p_max_retry p_pred p_backoff p_min p_max].
+  intros Hrnd Hoob. unfold accept_decision. rewrite generic_retry_eq. cbn [p_max_retry p_pred p_backoff p_min p_max].
   destruct (attempt >=? maxretry); [discriminate|].
   destruct (default_predicate o); try discriminate.
   pose proof (exp_class_sound guarded oob rnd e attempt o Hrnd Hoob) as Hs.
@@ -1058,7 +1072,7 @@ Qed.
 Lemma generic_retry_min_gt_max p attempt o d :
   p_max p < p_min p -> generic_retry p attempt o = DWait d -> d = p_max p.
 Proof.
-  intro H. unfold generic_retry.
+  intro H. unfold generic_retry, generated_retry.
   destruct (attempt >=? p_max_retry p); [discriminate|].
   destruct (p_pred p o); try discriminate.
   destruct (p_backoff p attempt o) as [x|]; [|discriminate].
@@ -1214,7 +1228,7 @@ Qed.
 (* the model used so far (token request served at once) is this one with a token service
    that answers 200 immediately, for a policy that does not retry that answer *)
 Lemma generic_retry_stop p attempt o : p_pred p o = PStop -> generic_retry p attempt o = DStop.
-Proof. intro H. unfold generic_retry. destruct (attempt >=? p_max_retry p); [reflexivity|]. now rewrite H. Qed.
+Proof. intro H. unfold generic_retry, generated_retry. destruct (attempt >=? p_max_retry p); [reflexivity|]. now rewrite H. Qed.
 
 Lemma auth_do_tok_instant p bd sc tb :
   p_pred p (OStatus 200 [] 0%N) = PStop ->
